@@ -75,6 +75,11 @@ func (d *Driver) read() {
 				}
 
 				b = []byte(ss[1])
+			} else if bytes.Contains(b, []byte("</hello>")) && patterns.v1Dot0Delim.Match(b) {
+				// the echo of our own hello (the server's hello was consumed while opening): drop it
+				// up to its delimiter, what follows it may be the beginning of a request's echo,
+				// message-id included, and must not be filed as a reply.
+				b = []byte(patterns.v1Dot0Delim.Split(string(b), endRPCSplitLen)[1])
 			} else if d.Channel.PromptPattern.Match(b) {
 				var messageID int
 
